@@ -4,6 +4,8 @@ import io
 import h5py
 import numpy as np
 
+from .. import coqfmt as F
+
 from .. import pyobs
 from .. import sergen as S
 from .. import values as V
@@ -44,9 +46,9 @@ def ref_value(v):
     if isinstance(v, (str, np.str_)):
         return ("str", str(v))
     if isinstance(v, np.ndarray):
-        return ("num", v.dtype.str, tuple(v.shape), np.ascontiguousarray(v).tobytes())
+        return ("num", v.dtype.str, tuple(v.shape), F.canon_bytes(v))
     a = np.asarray(v)
-    return ("num", a.dtype.str, tuple(a.shape), a.tobytes())
+    return ("num", a.dtype.str, tuple(a.shape), F.canon_bytes(a))
 
 
 def ref_encode(n):
@@ -84,8 +86,9 @@ def raw_tree(item):
             return ("str", v.decode("utf8") if isinstance(v, bytes) else v)
         rows = [tuple(x.decode("utf8") if isinstance(x, bytes) else x for x in r) for r in np.asarray(v, dtype=object).reshape(item.shape[0], -1).tolist()]
         return ("edges", rows) if item.ndim == 2 and item.shape[1] == 2 else ("strs", rows)
-    a = np.asarray(item[()])
-    return ("num", a.dtype.str, tuple(a.shape), np.ascontiguousarray(a).tobytes())
+    # dtype of the DATASET (reading a 0-d dataset yields a numpy scalar, which is always in native byte order)
+    a = np.asarray(item[()]).astype(item.dtype)
+    return ("num", item.dtype.str, tuple(a.shape), F.canon_bytes(a))
 
 
 def diff_tree(exp, got, path):
